@@ -116,8 +116,17 @@ def run(ctx: Ctx):
     col.ob("G12", "S1", f"{W('store')}::bessel=count/(count-1)", okb,
            f"Bessel's correction is `{u(bes[0]) if bes else None}`; expected var *= count / (count - 1) under `bessel`", rel, store.line)
     stdd = [n for n in own_nodes(store.node) if isinstance(n, ast.Assign) and any(u(t) == "self.std" for t in n.targets)]
-    col.ob("G12", "S1", f"{W('store')}::std=sqrt(var)", len(stdd) == 1 and var_def is not None and u(stdd[0].value) in (
-        f"{u(var_def.targets[0])}.sqrt_()", f"{u(var_def.targets[0])}.sqrt()"), "std is not the square root of the variance", rel, store.line)
+    def _is_root_of_var(v):
+        # <var>[.clamp_min(0) | .clamp(min=0) | .relu()].sqrt[_]()  - the clamp only removes negative rounding
+        if not (isinstance(v, ast.Call) and isinstance(v.func, ast.Attribute) and v.func.attr in ("sqrt", "sqrt_") and not v.args):
+            return False
+        inner = v.func.value
+        while isinstance(inner, ast.Call) and isinstance(inner.func, ast.Attribute) and inner.func.attr in (
+                "clamp_min", "clamp_min_", "clamp", "clamp_", "relu", "relu_"):
+            inner = inner.func.value
+        return var_def is not None and u(inner) == u(var_def.targets[0])
+    col.ob("G12", "S1", f"{W('store')}::std=sqrt(var)", len(stdd) == 1 and _is_root_of_var(stdd[0].value),
+           "std is not the square root of the variance", rel, store.line)
     # store reads only the three statistics
     reads = {x.attr for x in own_nodes(store.node) if isinstance(x, ast.Attribute) and isinstance(x.ctx, ast.Load) and u(x.value) == "self"}
     col.ob("G16", "S1", f"{W('store')}::reads-only-the-statistics", reads <= set(STATS),
@@ -165,6 +174,7 @@ def run(ctx: Ctx):
     _store_threshold(ctx)
     # ---- S1' store only reads the accumulated statistics: no in-place operation on them or on their aliases -------
     _store_is_read_only(ctx)
+    _sqrt_of_a_difference_is_clamped(ctx)
     plumbing(ctx, "S2")
     return dict(
         explanation=(
@@ -496,6 +506,31 @@ def _store_is_read_only(ctx: Ctx):
            f"longer those of all frames", rel, bad[0].lineno if bad else f.line, sample=[u(b)[:60] for b in bad])
 
 
+def _sqrt_of_a_difference_is_clamped(ctx: Ctx):
+    """S6: var = sumsq / count - mean^2 is a difference of two nearly equal non-negative numbers for a (nearly) constant
+    coefficient; in floating point it can come out slightly negative, and the square root of that is NaN where the pooled
+    standard deviation is 0. Between the subtraction and the square root the value must be clamped at 0."""
+    from sa.defuse import ReachingDefs
+    col, pkg = ctx.col, ctx.pkg
+    f = pkg.func("_feats::MeanVarianceNormalization.store")
+    rel = f.module.relname
+    rd = ReachingDefs(f.node)
+    roots = [c for c in own_calls(f.node) if isinstance(c.func, ast.Attribute) and c.func.attr in ("sqrt", "sqrt_")] + \
+            [c for c in own_calls(f.node) if call_name(c) in ("torch.sqrt", "math.sqrt")]
+    if len(roots) != 1:
+        raise AnalysisError(f"C18: expected one square root in store, found {len(roots)}")
+    r = roots[0]
+    arg = r.func.value if isinstance(r.func, ast.Attribute) and call_name(r) not in ("torch.sqrt", "math.sqrt") else r.args[0]
+    der = rd.derives(arg)
+    has_sub = any(isinstance(x, ast.BinOp) and isinstance(x.op, ast.Sub) for e in der.exprs + [arg] for x in ast.walk(e))
+    clamp = any(isinstance(c.func, ast.Attribute) and c.func.attr in ("clamp_min", "clamp_min_", "clamp", "clamp_", "relu", "relu_", "abs")
+                or call_name(c) in ("torch.clamp", "torch.relu", "max") for c in der.calls() + [x for x in ast.walk(arg) if isinstance(x, ast.Call)])
+    col.ob("G12", "S6", f"{rel}::MeanVarianceNormalization.store::variance-clamped-before-the-root", (not has_sub) or clamp,
+           f"`{u(r)}` takes the root of sumsq / count - mean^2 without clamping at 0: for a constant coefficient (or a single frame) the "
+           f"difference rounds to a tiny negative number and the stored std is NaN instead of 0, which then poisons every "
+           f"normalised feature", rel, r.lineno)
+
+
 def _mutants():
     from selftest.mutate import Mutant as M
     _extra = [
@@ -503,6 +538,7 @@ def _mutants():
         M("time-dim-against-output-rank", "_feats.py", "time_dim = (time_dim + D) % D\n    if not concatenate:\n        D += 1", "if not concatenate:\n        D += 1\n    time_dim = (time_dim + D) % D", "time_dim-resolved-against-input-rank"),
         M("store-divides-sumsq-in-place", "_feats.py", "var = sumsq / count - mean.square()", "var = sumsq.div_(count) - mean.square()", "statistics-are-not-modified"),
         M("store-scales-sum-in-place", "_feats.py", "self.mean = mean = sum_ / count", "sum_ /= count\n        self.mean = mean = sum_", "statistics-are-not-modified"),
+        M("root-of-negative-rounding", "_feats.py", "self.std = var.clamp_min_(0).sqrt_()", "self.std = var.sqrt_()", "variance-clamped-before-the-root"),
         M("store-needs-two-frames", "_feats.py", "if count < (2 if bessel else 1):", "if count < 2:", "refuses-exactly-undefined-counts[bessel=False]"),
         M("store-divides-by-zero", "_feats.py", "if count < (2 if bessel else 1):", "if count < 1:", "refuses-exactly-undefined-counts[bessel=True]"),
         M("twin:threshold-by-lte", "_feats.py", "if count < (2 if bessel else 1):", "if count <= (1 if bessel else 0):", "", twin=True),
